@@ -243,8 +243,9 @@ Fixpoint all_zero_digits (s : bytes) : bool :=
 
 Definition zone_tail (s : bytes) : option Z :=
   match s with
-  | [90%N] => Some 0%Z
-  | [sg; h1; h2; 58%N; m1; m2] =>
+  | [z] => if (z =? 90)%N then Some 0%Z else None
+  | [sg; h1; h2; c; m1; m2] =>
+      if negb (c =? 58)%N then None else
       match two_digits h1 h2, two_digits m1 m2 with
       | Some hh, Some mm =>
           if ((hh <=? 24) && (mm <=? 60))%N then
@@ -270,7 +271,8 @@ Record stamp := mkstamp { st_yy : bytes; st_mm : bytes; st_dd : bytes; st_hh : b
 (* after "YYYY-MM-DDT" and the hour: ":MM:SS" and the tail *)
 Definition time_tail (year month day hour : N) (ybytes mbytes dbytes : bytes) (s : bytes) : option stamp :=
   match s with
-  | 58%N :: i1 :: i2 :: 58%N :: s1 :: s2 :: rest =>
+  | c1 :: i1 :: i2 :: c2 :: s1 :: s2 :: rest =>
+      if negb ((c1 =? 58) && (c2 =? 58))%N then None else
       match two_digits i1 i2, two_digits s1 s2, frac_zone rest with
       | Some mi, Some sec, Some (off, frac0) =>
           if ((1 <=? month) && (month <=? 12) && (1 <=? day) && (day <=? days_in year month)
@@ -289,7 +291,8 @@ Definition time_tail (year month day hour : N) (ybytes mbytes dbytes : bytes) (s
 (* time.Parse with any of the three layouts (the third subsumes the other two): the hour may have one digit *)
 Definition datetime_parse (s : bytes) : option stamp :=
   match s with
-  | y1 :: y2 :: y3 :: y4 :: 45%N :: m1 :: m2 :: 45%N :: d1 :: d2 :: 84%N :: h1 :: rest =>
+  | y1 :: y2 :: y3 :: y4 :: c1 :: m1 :: m2 :: c2 :: d1 :: d2 :: ct :: h1 :: rest =>
+      if negb ((c1 =? 45) && (c2 =? 45) && (ct =? 84))%N then None else
       match two_digits y1 y2, two_digits y3 y4, two_digits m1 m2, two_digits d1 d2, dig h1 with
       | Some yh, Some yl, Some mo, Some da, Some hd1 =>
           let year := (100 * yh + yl)%N in
@@ -812,7 +815,8 @@ Section Post.
     let cnt := bsum "Control" "EntryAddendaCount" all in
     match kid d "Control" with
     | [c] =>
-        has_int "BatchCount" (Z.of_nat (length all)) c
+        String.eqb (rname c) (rname new_file_control)
+        && has_int "BatchCount" (Z.of_nat (length all)) c
         && has_int "BlockCount" (block_count (2 + 2 * Z.of_nat (length all) + cnt)) c
         && has_int "EntryAddendaCount" cnt c
         && has_int "EntryHash" (Z.rem (bsum "Control" "EntryHash" all) P10) c
